@@ -335,7 +335,7 @@ def run_join(spec):
 
 
 SUBS = [
-    Sub('join_xor', lambda tier: _case(7 if tier == 'quick' else 12), run_join, quick=2500, thorough=20000,
+    Sub('join_xor', lambda tier: _case(7 if tier == 'quick' else 12), run_join, quick=2500, thorough=8000,
         rule='two tables (0-7 rows quick / 0-12 thorough, a quarter of the cases 1-2 rows against 9-30 rows), 0-3 key columns over a small colliding universe incl. NaN objects of two identities, '
              'int/float twins, None; key spellings None/name/list/different names/callable left/callable right/[] (cross); modes None,l,r,0,1,callable; '
              'x.join(y), x*y, x.xor(y), x/y. Oracle: nested-loop reference compared as multisets, anti-join + partition law, operands unchanged (cell identity), '
